@@ -235,6 +235,33 @@ class ServerFacts:
                 return True
         return True
 
+    def passive_start_locked(self):
+        """are the test `connection.future.passive_server.done()` and the `_start_passive_server` call of BOTH passive
+        handlers (pasv, epsv) inside one `async with` on a per-connection lock created in the dispatcher's
+        `Connection(...)` call?  (every command runs as its own task: without it two pipelined passive commands race)"""
+        disp = self.methods["dispatcher"]
+        lock_names = set()
+        for n in ast.walk(disp):
+            if isinstance(n, ast.Call) and ast.unparse(n.func) == "Connection":
+                for kw in n.keywords:
+                    if kw.arg and isinstance(kw.value, ast.Call) and ast.unparse(kw.value.func) in ("asyncio.Lock", "Lock"):
+                        lock_names.add(kw.arg)
+        if not lock_names:
+            return False
+        for name in ("pasv", "epsv"):
+            node = self.methods[name]
+            ok = False
+            for n in ast.walk(node):
+                if isinstance(n, ast.AsyncWith) and any(ast.unparse(it.context_expr) in {"connection." + l for l in lock_names} for it in n.items):
+                    text = "\n".join(ast.unparse(b) for b in n.body)
+                    if "passive_server.done()" in text and "_start_passive_server" in text and "connection.passive_server = " in text:
+                        ok = True
+            # nothing of the kind outside the locked region either
+            outside = [x for x in ast.walk(node) if isinstance(x, ast.Call) and "_start_passive_server" in ast.unparse(x.func)]
+            if not ok or len(outside) != 1:
+                return False
+        return True
+
     def passive_cancel_returns_port(self):
         """does `_start_passive_server` put the port back when the awaited start-up is cancelled?
         True when the try around `start_server` has a handler for CancelledError / BaseException (or a bare
@@ -624,6 +651,8 @@ def gen_server():
     lines.append("def aborCountsFinished : Bool := %s" % ("true" if F.abor_counts_finished() else "false"))
     lines.append("/-- `_start_passive_server` puts the port back when the awaited start-up is cancelled -/")
     lines.append("def passiveCancelReturnsPort : Bool := %s" % ("true" if F.passive_cancel_returns_port() else "false"))
+    lines.append("/-- PASV and EPSV test for an existing listener, start one and record it inside `async with` on a per-connection lock -/")
+    lines.append("def passiveStartLocked : Bool := %s" % ("true" if F.passive_start_locked() else "false"))
     lines.append("def cancelledIsException : Bool := %s" % ("true" if issubclass(asyncio.CancelledError, Exception) else "false"))
     C = sys.modules["aioftp.common"]
     lines.append("")
